@@ -59,19 +59,20 @@ def validate_options(options):  # noqa: C901
             raise SQLParseError('Invalid value for truncate_char: '
                                 '{!r}'.format(options['truncate_char']))
 
+    reindent = options.get('reindent', False)
+    if reindent not in [True, False]:
+        raise SQLParseError('Invalid value for reindent: '
+                            '{!r}'.format(reindent))
+
     indent_columns = options.get('indent_columns', False)
     if indent_columns not in [True, False]:
         raise SQLParseError('Invalid value for indent_columns: '
                             '{!r}'.format(indent_columns))
     elif indent_columns:
-        options['reindent'] = True  # enforce reindent
+        options['reindent'] = reindent = True  # enforce reindent
     options['indent_columns'] = indent_columns
 
-    reindent = options.get('reindent', False)
-    if reindent not in [True, False]:
-        raise SQLParseError('Invalid value for reindent: '
-                            '{!r}'.format(reindent))
-    elif reindent:
+    if reindent:
         options['strip_whitespace'] = True
 
     reindent_aligned = options.get('reindent_aligned', False)
